@@ -50,6 +50,8 @@ type Step struct {
 	Nofile   int      `json:"nofile,omitempty"`
 	Max      int      `json:"max,omitempty"`
 	Quiet    bool     `json:"quiet,omitempty"`
+	Free     bool     `json:"free,omitempty"`
+	PauseUs  int      `json:"pause_us,omitempty"`
 }
 
 type Scenario struct {
